@@ -113,7 +113,19 @@ pub fn gen(prop: &str, seed: u64, index: u64, tier: Tier) -> Case {
         let e = gen::gen_edges(&mut rng, n, cyclic);
         (n, e, false)
     };
-    let project = gen::gen_graph_project(&mut rng, &o, n, &edges);
+    if prop == "C03" {
+        // now and then more results than any queue holds
+        o.wide = true;
+    }
+    let mut project = gen::gen_graph_project(&mut rng, &o, n, &edges);
+    if prop == "C03" && !swept && rng.chance(1, 10) {
+        // a failing file: the run must still terminate, whatever is in flight when it fails
+        let a0 = analyze(&project);
+        if a0.n() > 0 {
+            let s = a0.sources[rng.below(a0.n())].path.clone();
+            gen::inject_error(&mut rng, &mut project, &s);
+        }
+    }
     let a = analyze(&project);
     let mut crng = rng_for(seed, prop, pi, "config");
     let (inputs, recursive) = gen::gen_inputs(&mut crng, &a, prop == "C03");
